@@ -235,7 +235,7 @@ class Check:
         with open(os.path.join(evdir, f"{self.pid}.json"), "w") as f:
             json.dump(ev, f, indent=1)
         print(
-            f"{self.pid} tier={self.tier} obligations={ob} discharged={discharged} inconclusive={unknown} "
+            f"{self.pid} tier={self.tier} obligations={ob} discharged={discharged} inconclusive={unknown} inconclusive_notes={len(self.inconclusive)} "
             f"cases={len(self.cases)} violations={len(self.violations)} known={len(self.known_hits)} "
             f"solver_q={cov['solver_queries']} solver_s={cov['solver_time_s']} wall={wall:.1f}s",
             flush=True,
